@@ -5,6 +5,7 @@
 -/
 import DDProofs.ApiXCopyProofs
 import DDProofs.AutoCore
+import DDProofs.XCopyAuto
 open Std
 
 namespace DD
@@ -21,30 +22,12 @@ theorem xcopyBody_keepsAtOff (s : Tbl) (hS : WF s) (hOs : OrderOK s) (u : Int) (
       rw [he]; exact ⟨hI', hE, hF⟩)
     (fun ext hl => (xcopyBody_lite ext s u m hl).1.exact)
 
+/-- `dd._copy.copy_bdd` over autoref as the code runs it (`DD.aXCopyRun`: every intermediate
+result a `Function`): target in ANY mode, ANY arguments — DDProofs.XCopyAuto; the hypothesis on the
+support is not needed for the invariant (it is for the VALUE, `C08_xcopy_value`) -/
 theorem aXCopyTo_keepsAtOff (a src : AMgr) {offS : Bool} (hsrc : AInv offS src) (hu h : Nat)
-    (hpre : ∀ u, (nodeOwn hu src).1 = .ok u → CopyPreA src.m.tbl u a.m.tbl) :
-    AKeepsAt true a h (aXCopyTo src hu h) := by
-  intro hi hfr r a' he
-  unfold aXCopyTo at he
-  cases hx : nodeOwn hu src with
-  | mk r1 s1 =>
-    rw [hx] at he
-    cases r1 with
-    | error e =>
-      simp only at he; cases he
-      exact ⟨hi, fun _ _ => rfl, fun j u hj => ⟨hi.hmem j u hj, fun _ => rfl⟩⟩
-    | ok u =>
-      simp only at he
-      have hmem : src.m.tbl.Mem u := by
-        unfold nodeOwn at hx
-        cases hh : src.handles[hu]? with
-        | none => rw [hh] at hx; cases hx
-        | some v =>
-          rw [hh] at hx
-          cases hx
-          exact hsrc.hmem hu u hh
-      exact wrapResult_keepsAt a
-        (xcopyBody_keepsAtOff src.m.tbl hsrc.inv.wf.toWF hsrc.order u hmem a.m hi.order
-          (hpre u (by rw [hx]))) h hi hfr r a' he
+    (_hpre : ∀ u, (nodeOwn hu src).1 = .ok u → CopyPreA src.m.tbl u a.m.tbl) :
+    AKeepsAt true a h (aXCopyTo src hu h) :=
+  aXCopyTo_keepsAll a src hsrc hu h
 
 end DD
